@@ -146,10 +146,15 @@ Proof.
   - unfold nlen in *. rewrite map_length, recs_length. exact Hn.
 Qed.
 
+Lemma write_unfold : forall kvs, write H kvs =
+  rbind (build_tables (map (entry_of H) (recs_from header_size kvs)) table_ids (end_from header_size kvs))
+        (fun tabs => Ok (mkImage (recs_from header_size kvs) tabs)).
+Proof. reflexivity. Qed.
+
 Theorem write_ok : forall kvs, fits32 kvs -> exists img, write H kvs = Ok img.
 Proof.
   intros kvs Hf. destruct (ents_facts kvs Hf) as [_ [H1 [H2 H3]]].
-  unfold write.
+  rewrite write_unfold.
   destruct (build_tables_spec _ H1 H2 H3 table_ids (end_from header_size kvs)) as [tabs [Ht _]].
   rewrite Ht. simpl. eauto.
 Qed.
@@ -198,7 +203,7 @@ Lemma tables_of_write : forall kvs img, fits32 kvs -> write H kvs = Ok img ->
 Proof.
   intros kvs img Hf Hw.
   destruct (ents_facts kvs Hf) as [Hnd [H1 [H2 H3]]].
-  unfold write in Hw.
+  rewrite write_unfold in Hw.
   destruct (build_tables_spec _ H1 H2 H3 table_ids (end_from header_size kvs)) as [tabs [Ht [Hl Hs]]].
   rewrite Ht in Hw. cbn [rbind] in Hw. inversion Hw; subst img. clear Hw.
   split; auto. intros i Hi.
